@@ -343,69 +343,132 @@ def parse_lcov_records(text):
     return {k: sorted(v) for k, v in recs.items()}
 
 
+RENAME = {"app/file.c": "app/file_c", "a.b.c": "a_b_c"}        # dotted stems and their dot-free twins
+
+
+def undot(arts):
+    """the same artifacts with the dotted gcno/gcda stems renamed consistently: the report must not change"""
+    out = []
+    for k, name, cid in arts:
+        if k in ("gcno", "gcda"):
+            stem, ext = name.rsplit(".", 1)
+            name = RENAME.get(stem, stem) + "." + ext
+        out.append((k, name, cid))
+    return out
+
+
+def orphan_lines():
+    """instrumented lines of test/llvm/reader.gcno according to llvm-cov's own listing without data (reader.c.0.gcov)"""
+    out = []
+    with open(os.path.join(L.REPO, "test/llvm/reader.c.0.gcov")) as f:
+        for line in f:
+            m = re.match(r"^\s*(#####|\d+):\s*(\d+):", line)
+            if m:
+                out.append(int(m.group(2)))
+    return sorted(out)
+
+
 def cli_stream(chk, pool, n, dist):
+    """the real binary (main.rs passes the options on): same report for every packaging, with and without --llvm (all gcno
+    fixtures are LLVM-format), for --filter covered on and off; orphan gcno = its lines with zero counts unless covered only"""
     cli = vlib.build_cli()
     rng = chk.rng
     sc = vlib.scratch("c17_cli")
     names = pool.names
+    fixtures = [("gcno", "obj/file.gcno", names["llvm_gcno_file"]), ("gcda", "obj/file.gcda", names["llvm_gcda_file"]),
+                ("gcno", "file_branch.gcno", names["llvm_gcno_file_branch"]), ("gcda", "file_branch.gcda", names["llvm_gcda_file_branch"]),
+                ("gcno", "deep/er/reader.gcno", names["llvm_gcno_reader"]), ("gcda", "lonely.gcda", names["gcda_lonely"]),
+                ("gcno", "app/file.c.gcno", names["llvm_gcno_file"]), ("gcda", "app/file.c.gcda", names["llvm_gcda_file"]), ("gcda", "app/file.gcda", names["llvm_gcda_file_branch"]),
+                ("gcno", "a.b.c.gcno", names["llvm_gcno_file_branch"]), ("gcda", "a.b.c.gcda", names["llvm_gcda_file_branch"]), ("gcda", "a.gcda", names["gcda_lonely"])]
     base = [("info", "a.info", names["info_a"]), ("info", "logs/b.info", names["info_b"]), ("info", "a.info", names["info_a2"]),
             ("xml", "rep/one.xml", names["xml_1"]), ("xml", "two.xml", names["xml_2"]), ("xml", "short.xml", names["short_jacoco"]),
             ("xml", "rep/straddle.xml", names["straddle_jacoco"]), ("decoy", "late.xml", names["decoy_xml_late"]),
             ("info", "same/s.info", names["info_c"]), ("info", "same/s.info", names["info_c"]),
             ("info", "lib/.libs/d.info", names["info_dot"]), ("info", ".cov.info", names["info_dotfile"]),
             ("decoy", "decoy.info", names["decoy_info"]), ("decoy", "build.xml", names["decoy_xml"]), ("decoy", "notes.txt", names["txt"]),
-            ("gcno", "obj/file.gcno", names["llvm_gcno_file"]), ("gcda", "obj/file.gcda", names["llvm_gcda_file"]), ("gcda", "obj/file.gcda", names["llvm_gcda_file"]),
-            ("gcno", "file_branch.gcno", names["llvm_gcno_file_branch"]), ("gcda", "file_branch.gcda", names["llvm_gcda_file_branch"]),
-            ("gcno", "deep/er/reader.gcno", names["llvm_gcno_reader"]), ("gcda", "lonely.gcda", names["gcda_lonely"])]
+            ("gcda", "obj/file.gcda", names["llvm_gcda_file"])] + fixtures
+    exp_orphan = ["DA:%d,0" % k for k in orphan_lines()]
+    seq = [0]
 
-    def run(tag, args, extra):
-        root = os.path.join(sc, tag)
+    def run(args, flags):
+        seq[0] += 1
+        root = os.path.join(sc, "r%d" % seq[0])
         os.makedirs(os.path.join(root, "in"))
         os.makedirs(os.path.join(root, "tmp"))
         argv = L.materialise(os.path.join(root, "in"), args, pool.blobs)
-        p = subprocess.run([cli] + argv + ["--llvm", "-t", "lcov"] + extra, cwd=os.path.join(root, "in"), capture_output=True, text=True,
+        p = subprocess.run([cli] + argv + flags + ["-t", "lcov"], cwd=os.path.join(root, "in"), capture_output=True, text=True,
                            env=dict(os.environ, TMPDIR=os.path.join(root, "tmp")), timeout=120)
+        chk.count()
         return p
 
-    for i in range(n):
-        for extra in ([], ["--filter", "covered"]):
-            reps = []
-            for j in range(3):
-                args = L.gen_layout(rng, base)
-                p = run("l%d_%d_%d" % (i, len(extra), j), args, extra)
-                chk.count()
+    def split(arts, by):
+        a = {"kind": by[0], "name": "notes.zip" if by[0] == "zip" else "notes", "entries": [[n_, c, k] for k, n_, c in arts if k == "gcno"]}
+        b = {"kind": by[1], "name": "data.zip" if by[1] == "zip" else "data", "entries": [[n_, c, k] for k, n_, c in arts if k != "gcno"]}
+        return a, b
+
+    def group(label, packagings, covered, first_full):
+        """all (packaging, --llvm on/off) runs of one artifact set: one report; then the report itself"""
+        reps = []
+        for args in packagings:
+            for ll in ([], ["--llvm"]):
+                flags = ll + (["--filter", "covered"] if covered else [])
+                p = run(args, flags)
                 if p.returncode != 0:
-                    chk.violation({"kind": "oracle", "engine": "cli", "args": args, "stderr": p.stderr[-800:], "clause": "a layout with usable input must produce a report"}, tag="cli")
+                    chk.violation({"kind": "oracle", "engine": "cli", "args": args, "flags": flags, "stderr": p.stderr[-800:], "clause": "a layout with usable input must produce a report"}, tag="cli")
                     continue
-                reps.append((args, parse_lcov_records(p.stdout)))
-            for args, r in reps[1:]:
-                if r != reps[0][1]:
-                    chk.violation({"kind": "oracle", "engine": "cli", "layout_a": reps[0][0], "layout_b": args, "report_a": reps[0][1], "report_b": r,
-                                   "clause": "two packagings of the same artifacts give the same lcov report (as a set of records)"}, tag="cli")
-            if reps:
-                dist["cli_layout_groups"] += 1
-                dist["cli_records"] = max(dist["cli_records"], sum(len(v) for v in reps[0][1].values()))
-                if i == 0 and not extra:
-                    # the report itself: counts of a.c add up over the two files, orphan gcno lines present with zero counts
-                    r = reps[0][1]
-                    if "p/S.java" not in r or "p/T.java" not in r:
-                        chk.violation({"kind": "oracle", "engine": "cli", "report": sorted(r), "clause": "the 204-byte JaCoCo report and the one with a character across byte 256 are used"}, tag="cli")
-                    if "DA:1,3" not in r.get("src/a.c", []):
-                        chk.violation({"kind": "oracle", "engine": "cli", "report": r, "clause": "both a.info files are used exactly once (line 1 of src/a.c: 1+2)"}, tag="cli")
-                    if "DA:1,10" not in r.get("src/c.c", []):
-                        chk.violation({"kind": "oracle", "engine": "cli", "args": reps[0][0], "report": r, "clause": "same/s.info is given in two archives (same name, same bytes): both occurrences are used (line 1 of src/c.c: 5+5)"}, tag="cli")
-                    if "src/dot.c" not in r or "src/dotfile.c" not in r:
-                        chk.violation({"kind": "oracle", "engine": "cli", "args": reps[0][0], "report": sorted(r), "clause": "lib/.libs/d.info and .cov.info are used however they are packaged"}, tag="cli")
-                    chk.nontrivial(["cli", sorted(r)])
-    # no usable input => non-zero exit, whatever the packaging
+                reps.append((args, flags, parse_lcov_records(p.stdout)))
+        for args, flags, r in reps[1:]:
+            if r != reps[0][2]:
+                chk.violation({"kind": "oracle", "engine": "cli", "group": label, "layout_a": reps[0][0], "flags_a": reps[0][1], "layout_b": args, "flags_b": flags,
+                               "report_a": reps[0][2], "report_b": r,
+                               "clause": "every packaging of the same artifacts (dotted gcno/gcda stems renamed consistently included), with and without --llvm for LLVM-format "
+                                         "gcno files, gives the same lcov report (as a set of records)"}, tag="cli")
+                break
+        if not reps:
+            return
+        dist["cli_layout_groups"] += 1
+        dist["cli_records"] = max(dist["cli_records"], sum(len(v) for v in reps[0][2].values()))
+        for args, flags, r in reps:
+            got = [x for x in r.get("reader.c", []) if x.startswith("DA:")]
+            want = [] if covered else exp_orphan
+            if sorted(got) != sorted(want):
+                chk.violation({"kind": "oracle", "engine": "cli", "group": label, "args": args, "flags": flags, "reader.c": got, "expected": want,
+                               "clause": "a gcno without any gcda contributes its lines with zero counts unless only covered files were requested (--filter covered)"}, tag="cli-orphan")
+                break
+        r = reps[0][2]
+        if "file.c" not in r or "file_branch.c" not in r:
+            chk.violation({"kind": "oracle", "engine": "cli", "group": label, "report": sorted(r), "clause": "gcno files with gcda are reported"}, tag="cli")
+        if first_full:
+            if "p/S.java" not in r or "p/T.java" not in r:
+                chk.violation({"kind": "oracle", "engine": "cli", "report": sorted(r), "clause": "the 204-byte JaCoCo report and the one with a character across byte 256 are used"}, tag="cli")
+            if "DA:1,3" not in r.get("src/a.c", []):
+                chk.violation({"kind": "oracle", "engine": "cli", "report": r, "clause": "both a.info files are used exactly once (line 1 of src/a.c: 1+2)"}, tag="cli")
+            if "DA:1,10" not in r.get("src/c.c", []):
+                chk.violation({"kind": "oracle", "engine": "cli", "args": reps[0][0], "report": r, "clause": "same/s.info is given in two archives (same name, same bytes): both occurrences are used (line 1 of src/c.c: 5+5)"}, tag="cli")
+            if "src/dot.c" not in r or "src/dotfile.c" not in r:
+                chk.violation({"kind": "oracle", "engine": "cli", "args": reps[0][0], "report": sorted(r), "clause": "lib/.libs/d.info and .cov.info are used however they are packaged"}, tag="cli")
+        chk.nontrivial(["cli", label, covered, sorted(r)])
+
+    for covered in (False, True):
+        # the LLVM fixtures alone: one directory, notes and data directories in both orders, one zip, notes zip + data zip, zip + dir,
+        # and one directory with the dotted stems renamed
+        one = lambda kind, arts: [{"kind": kind, "name": "all.zip" if kind == "zip" else "all", "entries": [[n_, c, k] for k, n_, c in arts]}]
+        nd = split(fixtures, ("dir", "dir"))
+        nz = split(fixtures, ("zip", "zip"))
+        mz = split(fixtures, ("zip", "dir"))
+        group("fixtures", [one("dir", fixtures), [nd[0], nd[1]], [nd[1], nd[0]], one("zip", fixtures), [nz[1], nz[0]], [mz[0], mz[1]], one("dir", undot(fixtures))], covered, False)
+        # everything, random packagings (one of them with the dotted stems renamed)
+        for i in range(n):
+            group("full%d" % i, [L.gen_layout(rng, base), L.gen_layout(rng, base), L.gen_layout(rng, undot(base))], covered, i == 0 and not covered)
+    # no usable input => non-zero exit, whatever the packaging and the flags
     nothing = [a for a in base if a[0] in ("decoy", "gcda")]
-    for j in range(3):
+    for j in range(4):
         args = L.gen_layout(rng, nothing)
-        p = run("none_%d" % j, args, [])
-        chk.count()
+        flags = [[], ["--llvm"], ["--filter", "covered"], ["--llvm", "--filter", "covered"]][j]
+        p = run(args, flags)
         dist["cli_no_input_runs"] += 1
         if p.returncode == 0:
-            chk.violation({"kind": "oracle", "engine": "cli", "args": args, "stdout": p.stdout[:300], "clause": "no usable input => the run fails"}, tag="cli-none")
+            chk.violation({"kind": "oracle", "engine": "cli", "args": args, "flags": flags, "stdout": p.stdout[:300], "clause": "no usable input => the run fails"}, tag="cli-none")
     import shutil
     shutil.rmtree(sc, ignore_errors=True)
 
@@ -427,8 +490,9 @@ def run(chk):
                        "1-5 directories / zip archives / plain file arguments with random nesting, nested-subdirectory arguments, relative and absolute argument spellings, "
                        "each packaging in two argument orders, --llvm on/off x --filter covered on/off; grcov::producer (unbounded channel, items and extracted files read back) "
                        "vs Gallina work_items (item for item, incl. archive names, link numbers and temp-file names) vs the driver's reading of the property; all packagings of "
-                       "one artifact set must give one multiset of item contents; hand-made stream (symlinks, duplicate zip names, the 256-byte signature window incl. invalid UTF-8 around the marker, zip members with absolute / '..' names); CLI stream: three "
-                       "packagings of the same artifacts give the same lcov records, no usable input exits non-zero; non-trivial = distinct layout producing items")
+                       "one artifact set must give one multiset of item contents; hand-made stream (symlinks, duplicate zip names, the 256-byte signature window incl. invalid UTF-8 around the marker, zip members with absolute / '..' names); CLI stream (real binary, so main.rs's option plumbing is covered): LLVM fixtures incl. an orphan gcno, dotted stems (file.c.gcno) next to a decoy file.gcda, "
+                       "as one dir / notes+data dirs in both orders / zips / renamed stems, and the full pool in random packagings, each with and without --llvm x --filter covered: one report per artifact set, "
+                       "orphan lines = llvm-cov's own listing (reader.c.0.gcov) with zero counts unless covered only; no usable input exits non-zero; non-trivial = distinct layout producing items")
     chk.cov["trusted_base"] = ["Coq kernel; vm_compute for the correspondence",
                                "walkdir and the zip crate: the list of (relative name, content) of each archive is computed by the driver from its own layout description "
                                "(zip duplicates: last entry; links to files are files) and is validated only differentially",
